@@ -341,8 +341,13 @@ def run(ctx):
             r = res[kind]
             outs[kind] = r['out'].decode('utf-8', 'replace').split('\n')[:-1] if (r['stage'] == 'run' and r['rc'] == 0) else None
         if outs['gcc'] is None or outs['clang'] is None:
+            # e.g. gcc does not accept an _Alignas operand whose *unevaluated* branch shifts by more than the width: such a unit is dropped
             bad = res['gcc'] if outs['gcc'] is None else res['clang']
-            raise core.Inconclusive('reference compiler failed on a generated TU: ' + bad['err'].decode('utf-8', 'replace')[-400:])
+            ctx.count('reference_rejected_tus')
+            ctx.extra.setdefault('reference_reject_examples', []).append(bad['err'].decode('utf-8', 'replace')[-300:])
+            if ctx.counts['reference_rejected_tus'] > max(2, 0.03 * len(results)):
+                raise core.Inconclusive('reference compiler failed on %d generated TUs: %s' % (ctx.counts['reference_rejected_tus'], bad['err'].decode('utf-8', 'replace')[-400:]))
+            continue
         x = res['chibicc']
         if outs['chibicc'] is None:
             msg = core.first_line(x['err'].decode('utf-8', 'replace'))
